@@ -256,7 +256,7 @@ Lemma ofm_codes s d st e c :
   allr R_OverlappingFieldsCanBeMerged (r_errors (ofm_res st)) ->
   allr R_OverlappingFieldsCanBeMerged (r_errors (ofm_res (ofm_step s d st e c))).
 Proof.
-  intro H. by_event e; cbn [ofm_step]; try exact H.
+  intro H. by_event e; cbn [ofm_step ofm_step_with]; try exact H.
   destruct (mrun _ _ _ _ _) as [[ms cs]|]; cbn [ofm_res r_errors]; allr_tac.
 Qed.
 
